@@ -312,6 +312,7 @@ int KSI_AsyncExtendingHandle_new(KSI_CTX *ctx, const KSI_Signature *sig, const K
 
 	res = KSI_OK;
 cleanup:
+	KSI_ExtendReq_free(req);
 	KSI_AsyncHandle_free(tmp);
 
 	return res;
